@@ -297,6 +297,21 @@ Proof.
 Qed.
 
 (* Discard within the buffer does not touch the source *)
+Lemma big_fuel_pos : (0 < big_fuel)%nat.
+Proof. unfold big_fuel. lia. Qed.
+
+Lemma discard_loop_within : forall fuel b n,
+  (0 < fuel)%nat -> buf_inv b -> 0 < n -> n <= blen b ->
+  discard_loop fuel b n =
+  Some (None, mkBuf (bsize b) (skipn (N.to_nat n) (bbuf b)) (blen b - n) (berr b)
+                    (chunks b) (term b) (consumed b + n)).
+Proof.
+  intros fuel b n Hf Hinv Hn0 Hn. destruct fuel as [|f]; [lia|]. cbn [discard_loop].
+  destruct (blen b =? 0) eqn:Eb; [lia|].
+  replace (N.min (blen b) n) with n by lia.
+  replace (n - n =? 0) with true by lia. reflexivity.
+Qed.
+
 Lemma bDiscard_within : forall b n,
   buf_inv b -> berr_ok b -> n <= blen b ->
   exists b', bDiscard b n = Some (None, b') /\ buf_inv b' /\ berr_ok b' /\ bsize b' = bsize b /\
@@ -304,12 +319,20 @@ Lemma bDiscard_within : forall b n,
 Proof.
   intros b n Hinv Hok Hn. unfold bDiscard. destruct (n =? 0) eqn:E0.
   - exists b. split; [reflexivity|]. split; [exact Hinv|]. split; [exact Hok|]. split; [reflexivity|]. split; [lia|reflexivity].
-  - unfold big_fuel. destruct (N.to_nat 262144) as [|f] eqn:Ef; [lia|]. cbn [discard_loop].
-    destruct (blen b =? 0) eqn:Eb; [lia|].
-    replace (n - N.min (blen b) n =? 0) with true by lia.
+  - rewrite (discard_loop_within big_fuel b n big_fuel_pos Hinv) by lia.
     eexists. split; [reflexivity|]. destruct Hinv as (I1 & I2 & I3).
-    split; [unfold buf_inv; cbn; rewrite skipn_length; split; [lia|split; lia]|].
-    split; [exact Hok|]. split; [reflexivity|]. split; [cbn; lia|reflexivity].
+    unfold buf_inv, berr_ok. cbn [blen bsize bbuf berr chunks term consumed].
+    split; [rewrite skipn_length; split; [lia|split; lia]|].
+    split; [exact Hok|]. split; [reflexivity|]. split; [lia|reflexivity].
+Qed.
+
+Lemma fill_loop_blen_mono : forall i b, blen b <= blen (fill_loop i b).
+Proof.
+  induction i as [|k IHk]; intros b; cbn [fill_loop]; [cbn; lia|].
+  destruct (src_read (chunks b) (term b) (bsize b - blen b)) as [[[got n] err] cs].
+  destruct err; [cbn; lia|]. destruct (0 <? n); [cbn; lia|].
+  specialize (IHk (mkBuf (bsize b) (bbuf b ++ got) (blen b + n) (berr b) cs (term b) (consumed b))).
+  cbn in IHk. lia.
 Qed.
 
 (* Discard in general: the invariants survive *)
@@ -321,18 +344,14 @@ Proof.
   assert (Hb1 : forall b1, (if blen b =? 0 then bfill b else Some b) = Some b1 ->
                 berr_ok b1 /\ src_total (chunks b1) <= src_total (chunks b)).
   { intros b1 Hb. destruct (blen b =? 0).
-    - unfold bfill in Hb. destruct (bsize b <=? blen b); [discriminate|]. inversion Hb; subst b1.
-      pose proof (fill_loop_total 100 b Hok) as (F1 & F2). pose proof (fill_loop_spec 100 b) as Fs.
+    - unfold bfill in Hb. destruct (bsize b <=? blen b); [discriminate|].
+      assert (Hb' : fill_loop 100 b = b1) by congruence. subst b1.
+      pose proof (fill_loop_total 100 b Hok) as (F1 & F2).
       split; [exact F2|].
       (* blen grows, total conserved *)
-      assert (blen b <= blen (fill_loop 100 b)).
-      { clear -b. revert b. induction 100%nat as [|k IHk]; intros b; cbn [fill_loop]; [cbn; lia|].
-        destruct (src_read (chunks b) (term b) (bsize b - blen b)) as [[[got n] err] cs].
-        destruct err; [cbn; lia|]. destruct (0 <? n); [cbn; lia|].
-        specialize (IHk (mkBuf (bsize b) (bbuf b ++ got) (blen b + n) (berr b) cs (term b) (consumed b))).
-        cbn in IHk. lia. }
+      pose proof (fill_loop_blen_mono 100 b).
       lia.
-    - inversion Hb; subst. split; [exact Hok|lia]. }
+    - assert (Hb' : b = b1) by congruence. subst b1. split; [exact Hok|lia]. }
   destruct (if blen b =? 0 then bfill b else Some b) as [b1|] eqn:Eb1; [|discriminate].
   destruct (Hb1 b1 eq_refl) as (K1 & K2).
   destruct (remain - N.min (blen b1) remain =? 0).
@@ -341,5 +360,5 @@ Proof.
     + inversion H; subst. split; [unfold berr_ok; cbn; discriminate|exact K2].
     + apply IH in H.
       * destruct H as (H1 & H2). cbn in H2. split; [exact H1|lia].
-      * unfold berr_ok; cbn. rewrite Ee. discriminate.
+      * unfold berr_ok; cbn. try rewrite Ee. discriminate.
 Qed.
